@@ -122,6 +122,23 @@ def forbidden_tokens():
     return hits
 
 
+def local_modules(root):
+    """`root` and every module of this project it imports, directly or not (the theorems' own lemma files)"""
+    import re
+    seen, todo = [], [root]
+    while todo:
+        m = todo.pop()
+        if m in seen:
+            continue
+        path = os.path.join(LEAN, *m.split('.')) + '.lean'
+        if not os.path.exists(path):
+            continue
+        seen.append(m)
+        with open(path) as fh:
+            todo += re.findall(r'^import (Xrfmv\.[A-Za-z0-9_.]+)', fh.read(), flags=re.M)
+    return seen
+
+
 def check_proofs(prop):
     """Build Props/<prop> (theorems over the regenerated Gen) and audit axioms.
 
@@ -360,9 +377,10 @@ class Run:
         if need_props and self.tier == 'thorough' and self.proof['ok']:
             # independent re-check of the compiled theorems by the toolchain's leanchecker
             try:
+                mods = local_modules(f'Xrfmv.Props.{self.prop}')
                 with lean_lock():
-                    rc, out = _run(['lake', 'env', 'leanchecker', f'Xrfmv.Props.{self.prop}'], timeout=1800)
-                self.extra['leanchecker'] = {'exit': rc, 'tail': out[-300:]}
+                    rc, out = _run(['lake', 'env', 'leanchecker'] + mods, timeout=1800)
+                self.extra['leanchecker'] = {'exit': rc, 'tail': out[-300:], 'modules': mods}
                 if rc != 0:
                     self.proof['ok'] = False
                     self.proof['errors'].append(f'leanchecker rejected Xrfmv.Props.{self.prop}: {out[-300:]}')
